@@ -13,6 +13,9 @@ def main():
     cfile, mode = args[0], args[1]
     for fn in args[2:]:
         t = {'cfile': cfile, 'fn': fn, 'mode': mode}
+        for a in sys.argv:
+            if a.startswith('--timeout='):
+                t['timeout_ms'] = int(a.split('=')[1])
         if mode.startswith('spec:'):
             t['mode'] = 'spec'
             t['module'] = mode[5:]
